@@ -842,8 +842,10 @@ func c02Attribute(sc *scen.Scenario, ops map[string]*opObs, nestedToks map[strin
 		e, known := exp[k]
 		return !known || (e[c02Optional] > 0 && have[k][w] < e[w])
 	}
+	// (a bare newline is what a blank Print/Println expects; anything else can only be another call's record)
+	fits := func(k string, q int) bool { return (string(pool[q].e.P) == "\n") == blankCall[k] }
 	for q := range pool {
-		if isAnon[pool[q].from] && needs(pool[q].from, pool[q].e.W) {
+		if isAnon[pool[q].from] && needs(pool[q].from, pool[q].e.W) && fits(pool[q].from, q) {
 			give(pool[q].from, q)
 		}
 	}
@@ -856,7 +858,7 @@ func c02Attribute(sc *scen.Scenario, ops map[string]*opObs, nestedToks map[strin
 				if _, known := exp[k]; taken[q] || !known || !needs(k, pool[q].e.W) {
 					continue
 				}
-				if bare := string(pool[q].e.P) == "\n"; bare == blankCall[k] || pass == 2 {
+				if fits(k, q) || (pass == 2 && !blankCall[k]) {
 					give(k, q)
 				}
 			}
